@@ -36,6 +36,7 @@ Inductive pobs := P400 | PTrue | PFalse | PNone | PPanic | POther.
 Inductive postobs := Post200 | Post400 | PostPanic | PostOther.
 
 Record e2e := mkE {
+  e_nw : nat;                                     (* words of the scenario's action archive (ArchiveLen) *)
   e_pre : list (list (list fld) * list string);   (* history: summaries posted before, with the labels fetched after each *)
   e_recs : option (list (list fld));
   e_text : string;
@@ -90,14 +91,14 @@ Fixpoint run_labels (fmt : num -> string) (st : state) (ls : list string) : stat
   | l :: ls' => match get_solution fmt st l with Ok (_, st') => run_labels fmt st' ls' | Panic => run_labels fmt st ls' end
   end.
 
-Fixpoint run_history (cast : caster) (fmt : num -> string) (asis : list (string * num)) (st : state)
+Fixpoint run_history (nw : nat) (cast : caster) (fmt : num -> string) (asis : list (string * num)) (st : state)
          (h : list (list (list fld) * list string)) : state :=
   match h with
   | [] => st
   | (recs, ls) :: h' =>
-    let st1 := match post_solutions cast fmt asis st (CsvRecords (map (map f_s) recs)) with
+    let st1 := match post_solutions nw cast fmt asis st (CsvRecords (map (map f_s) recs)) with
                | Ok (_, s1) => s1 | Panic => st end in
-    run_history cast fmt asis (run_labels fmt st1 ls) h'
+    run_history nw cast fmt asis (run_labels fmt st1 ls) h'
   end.
 
 Definition check_e2e (c : e2e) : bool :=
@@ -111,13 +112,13 @@ Definition check_e2e (c : e2e) : bool :=
     let hdr := hd [] strs in
     let names := firstn (List.length hdr - 3) (tl hdr) in
     let rows := map srow_of (tl strs) in
-    let st0 := run_history cast fmt (e_asis c) fresh (e_pre c) in
+    let st0 := run_history (e_nw c) cast fmt (e_asis c) fresh (e_pre c) in
     forallb (fun f => tag_eqb (cast (f_s f)) (f_tag f)) fs
     && forallb go_cast_agrees fs && forallb go_fmt_agrees fs
     (* the marshaller model writes the same text / the same records *)
     && String.eqb (marshal_text names rows) (e_text c)
     && list_eqb (list_eqb String.eqb) (marshal_records names rows) strs
-    && match post_solutions cast fmt (e_asis c) st0 (CsvRecords strs), e_post c with
+    && match post_solutions (e_nw c) cast fmt (e_asis c) st0 (CsvRecords strs), e_post c with
        | Panic, PostPanic => true
        | Ok (S400, _), Post400 => true
        | Ok (S200, st), Post200 =>
